@@ -551,7 +551,15 @@ impl Ord for OrderedFloat64 {
 
 impl Hash for OrderedFloat64 {
     fn hash<H: Hasher>(&self, state: &mut H) {
-        self.0.to_bits().hash(state);
+        // Must agree with Eq: 0.0 == -0.0, and every NaN equals every NaN
+        let bits = if self.0.is_nan() {
+            f64::NAN.to_bits()
+        } else if self.0 == 0.0 {
+            0.0f64.to_bits()
+        } else {
+            self.0.to_bits()
+        };
+        bits.hash(state);
     }
 }
 
